@@ -56,6 +56,10 @@ func ParsePrivateKey(data, password []byte) (*rsa.PrivateKey, string, error) {
 
 	if cipher == tripleDES {
 		ciphertext, _ := io.ReadAll(r)
+		if len(ciphertext)%8 != 0 {
+			// not a whole number of cipher blocks: truncated or damaged
+			return k, comment, ErrCorrupted
+		}
 		plaintext := decrypt(ciphertext, password)
 		r = bytes.NewReader(plaintext)
 	}
